@@ -39,6 +39,8 @@ class Models:
         models_iter.register(self)
         from . import models_store
         models_store.register(self)
+        from . import models_sched
+        models_sched.register(self)
 
     def reg(self, *keys):
         def deco(f):
@@ -347,6 +349,8 @@ class Models:
             if isinstance(fl, list) and fl and not vals:
                 raise Inconclusive('ctor %s without fields' % name)
             return Adt(dest_ty or name, {(None, j): v for j, v in enumerate(vals)}, None, None)
+        if not vals and segs and segs[0] in ('std', 'core', 'alloc'):
+            return Adt(dest_ty or name, {}, None, 'opaque!' + name)      # unit value of a std type whose payload is never inspected
         raise Inconclusive('constructor %s' % name)
 
     def constant(self, ex, frame, t):
@@ -397,6 +401,14 @@ class Models:
     # ---------------------------------------------------------------- havoc
     def uninterpreted(self, ex, info, args, dest_ty):
         key = info['key']
+        # a tuple-variant / tuple-struct constructor used as a function value (`Poll::<V>::Ready`, `Some`, `Ok`)
+        segs = [s for s in split_top(info['text'], '::') if s and not s.startswith('<')]
+        if len(segs) >= 2 and args:
+            vs = self.prog.tables.enum_variants('::'.join(segs[:-1]))
+            if vs is not None:
+                for i, x in enumerate(vs):
+                    if x[0] == segs[-1] and x[1] == len(args):
+                        return Adt(dest_ty or '::'.join(segs[:-1]), {(i, j): v for j, v in enumerate(args)}, i, None)
         frame = getattr(ex, 'cur_frame', None)
         ov = self.havoc_overrides.get(key)
         if ov is not None:
@@ -683,8 +695,10 @@ def register_core(M):
             return Ref(cell, path)
         if isinstance(v, Ref):
             tgt = ex.read_path(v.cell, v.path)
+            while isinstance(tgt, Ref):
+                v, tgt = tgt, ex.read_path(tgt.cell, tgt.path)
             if isinstance(tgt, Obj) and tgt.kind in ('vec', 'str', 'symstr'):
-                return v      # generic AsRef<[T]> / AsRef<str> on a vector / string: the same object
+                return v      # generic AsRef<[T]> / AsRef<str> on a (reference to a) vector / string: the same object
         return M.uninterpreted(ex, info, a, dty)
 
     @reg('Pin::new_unchecked', 'Pin::new', 'Into::into', 'From::from', 'IntoFuture::into_future',
